@@ -37,7 +37,7 @@ func TestCheck(t *testing.T) {
 			"after a loss the shard has no store; after a regain nothing of the earlier epoch is visible; ServerInfo().ManagedShards == shards led; " +
 			"(3b) one (thorough: three) fault scenario on the k8s store: API writes fail exactly while the shard is lost (final flush fails, ~20 s of retries), an interim leader rewrites/deletes conditions in the API, the shard is regained: no store after the loss, and afterwards only what the API holds is visible (no in-flight count, no condition absent from or different from the API); " +
 			"(3c) one (thorough: three) scenario with the REAL elector (client-go leader election on leases of a fake kube clientset, 4 s lease / 0.6 s renew deadline) and the periodic leaderCheck: the server gains the shard and serves; " +
-			"its lease updates start failing while the process stays alive; once the lease OBJECT has expired (renewTime + lease duration + margin < now, renewals still failing) 30 observations 100 ms apart: it must not name itself leader " +
+			"its lease updates start failing while the process stays alive; once the elector has delivered OnStoppedLeading (and cannot start a new term: its lease writes keep failing) 30 observations 100 ms apart: it must not name itself leader " +
 			"(IsLeader/GetLeaders/ServerInfo), must refuse allocate and acquire, must hold no store (leaderCheck runs every second); then another identity takes the lease: refusals must name it, still no store; " +
 			"(3d) two (thorough: four) real electors with 60 shards each (60 client-go elections side by side), all leases overwritten with another holder at once; per shard, after OnStoppedLeading and three further lease polls of that election: " +
 			"leader table, refusals and ServerInfo().Endpoints must name the lease holder, in whichever order client-go delivered OnNewLeader and OnStoppedLeading (both orders are counted); " +
@@ -126,7 +126,7 @@ func TestCheck(t *testing.T) {
 		r.Require(r.Counter("gw_sparse_handover_of_known_shard") >= 1, "gateway side (sparse tables): no hand-over of a shard with a known leader")
 		r.Require(r.Counter("gw_sparse_calls_for_unreachable_leader") >= 10, "gateway side: no call was made for a shard whose leader is unreachable")
 		r.Require(r.Counter("gw_sparse_phases") >= 4 && r.Counter("gw_sparse_published_judged") >= 100 && r.Counter("gw_sparse_unpublished_judged") >= 10, "gateway side: sparse leader tables were not exercised")
-		r.Require(r.Counter("real_elector_scenarios") >= 1 && r.Counter("real_elector_checks_lease-expired") >= 20 && r.Counter("real_elector_checks_lease-held-by-other") >= 10, "the real-elector scenario did not complete")
+		r.Require(r.Counter("real_elector_scenarios") >= 1 && r.Counter("real_elector_checks_term-ended") >= 20 && r.Counter("real_elector_checks_lease-held-by-other") >= 10, "the real-elector scenario did not complete")
 		r.Require(r.Counter("real_takeover_scenarios") >= 1 && r.Counter("real_takeover_shards_judged") >= 60, "the real-elector takeover scenario did not complete")
 		r.Require(r.Violations() > 0 || r.Counter("real_takeover_newleader_before_stop") >= 1, "no takeover showed client-go reporting the new leader before the end of the term (the order that matters was not exercised)")
 		r.Require(r.Counter("conc_scenarios") >= 1 && r.Counter("conc_leadership_changes") >= 400 && r.Counter("conc_calls_judged_inside_a_gap") >= 200 && r.Counter("conc_calls_served_inside_a_term") >= 200 && r.Counter("conc_calls_overlapping_a_change") >= 1,
